@@ -253,6 +253,8 @@ def rE(E):
         return lit_src(E[1])
     if t == "lam":
         return "fn(x) x"
+    if t == "base":
+        return E[1]
     raise ValueError(E)
 
 
@@ -796,6 +798,10 @@ class Machine:
             if s is None:
                 raise Err(ERROR, "undefined " + E[1])
             return s.vars[E[1]]
+        if t == "base":
+            # a stream object every base environment defines (stdout /
+            # stdin): a value without a string conversion
+            return Stream(E[1], "out" if E[1] == "stdout" else "in")
         if t == "op":
             return self.binop(E[1], self.ev(E[2], scope),
                               self.ev(E[3], scope))
